@@ -66,6 +66,32 @@ def deps_graph_case(rng):
     return {"op": "deps_orders", "input": [inst, st, 150], "stream": "deps/" + shape}
 
 
+def penalty_path_case(rng):
+    """the QUBO-driver path: substitute an integer variable by a linear expression in binaries (as log_encode + substitute
+    do), convert with a penalty method, fix the weights, evaluate: the replaced variable must still be reported.
+    Small integers and coefficients k/2 only, linear constraints: every value is exact in binary64."""
+    base = rng.choice([0, 3, 10])
+    x = base + rng.randint(0, 3)
+    ys = [i for i in rng.sample(range(base, base + 9), rng.randint(0, 2)) if i != x]
+    bits = [base + 20 + k for k in range(rng.randint(1, 3))]
+    dvs = [GI.dv(x, 2, (0.0, 7.0))] + [GI.dv(i, rng.choice([1, 2]), (0.0, float(rng.randint(1, 3)))) for i in ys] + \
+          [GI.dv(b, 1, rng.choice([None, (0.0, 1.0)])) for b in bits]
+    rng.shuffle(dvs)
+    c = lambda: f64(rng.choice([-3, -2, -1, 1, 2, 3]) / rng.choice([1, 1, 2]))
+    pool = [x] + ys
+    lin = lambda ids: ["lin", [[[i, c()] for i in ids], c()]]
+    obj = lin(rng.sample(pool, rng.randint(1, len(pool)))) if rng.random() < 0.6 else \
+        ["quad", [[x], [rng.choice(pool)], [c()], [lin(pool)[1]]]]
+    cons = [GI.constraint(cid, rng.choice([1, 2]), lin([x] + rng.sample(ys, rng.randint(0, len(ys)))))
+            for cid in rng.sample(range(0, 9), rng.randint(1, 2))]
+    inst = [rng.choice([1, 2]), [obj], dvs, cons, [], [], [], [], []]
+    R = [[x, ["lin", [[[b, f64(float(2 ** k))] for k, b in enumerate(bits)], f64(float(rng.randint(0, 2)))]]]]
+    st = [[i, f64(float(rng.randint(0, 1)))] for i in ys] + [[b, f64(float(rng.randint(0, 1)))] for b in bits]
+    rng.shuffle(st)
+    return {"op": "subst_penalty_eval", "input": [inst, [R], st, rng.randint(0, 1), f64(rng.choice([1.0, 2.0, 0.5]))],
+            "stream": "inst/penalty-path"}
+
+
 def gen(rng, tier):
     n = 200 if tier == "quick" else 2500
     cases = []
@@ -107,6 +133,8 @@ def gen(rng, tier):
         cases.append({"op": "inst_substitute", "input": [inst, Rs, st], "stream": "inst/%d" % len(Rs)})
     for k in range(60 if tier == "quick" else 600):
         cases.append(deps_graph_case(rng))
+    for k in range(40 if tier == "quick" else 400):
+        cases.append(penalty_path_case(rng))
     return cases
 
 
@@ -114,6 +142,6 @@ def nontrivial(case):
     if case["op"] == "fn_substitute":
         ids = G.fn_ids(case["input"][0])
         return any(r[0] in ids for r in case["input"][1])
-    if case["op"] == "inst_substitute":
+    if case["op"] in ("inst_substitute", "subst_penalty_eval"):
         return len(case["input"][1]) >= 1
     return len(case["input"][0][5]) >= 2
